@@ -141,7 +141,23 @@ def run(ctx):
             "b" in deps[1]
     ctx.add("C13.R2", root + "#composite-transcript", okc,
             "each composite scalar must hash (seed from public value, index i, c[i], d[i]); found %s" % sh, at, sample=sh)
-    ctx.floor("C13.R2", 6)
+    # every batch element contributes to the composites unconditionally (no element is skipped depending on its value)
+    adds = [e for e in Q.calls(eng, None) if e.get("model") == "m_alg_add" and e["frame"] == fr.key]
+    okall = len(adds) >= 2
+    badc = []
+    for e in adds:
+        fs = Q.closure(eng, eng.block_facts.get((e["frame"], e["block"]), frozenset()))
+        for t, rel, v in fs:
+            ps = Q.params(Q.leaves(t))
+            if any(p.startswith("c") or p.startswith("d") or p.startswith("b") for p in ps) and not (t.op == "discr" and Q.contains(t, lambda z: z.op == "range_elem")):
+                # a condition on the points themselves (iteration bounds `i < c.len()` are fine)
+                if not (t.op in ("lt", "le", "eq", "ne") and all(x.op in ("len", "int", "range_elem") or Q.contains(x, lambda z: z.op == "len") for x in t.args)):
+                    okall = False
+                    badc.append(Q.show_fact((t, rel, v), 3))
+    ctx.add("C13.R2", root + "#every-element-contributes", okall,
+            "the composite accumulation must not be conditional on the value of a batch element (a skipped element is not bound by the proof): %s" % badc,
+            at, sample={"accumulations": len(adds), "conditions_on_points": badc})
+    ctx.floor("C13.R2", 7)
 
     # ---- R3 nonce ------------------------------------------------------------------------------------------------
     root = P + "ProofDLEQ::new_batch"
